@@ -1292,6 +1292,25 @@ func (e *endpoint) Supply(paths []string, signatures []*rsync.Signature, receive
 	return rsync.Transmit(e.root, paths, signatures, receiver)
 }
 
+// scannedEntryCount returns the number of entries that a snapshot contains at
+// (and beneath) the specified path. It returns 0 if the snapshot is nil or has
+// no content at that path.
+func scannedEntryCount(snapshot *core.Snapshot, path string) uint64 {
+	if snapshot == nil {
+		return 0
+	}
+	entry := snapshot.Content
+	if path != "" {
+		for _, name := range strings.Split(path, "/") {
+			if entry == nil {
+				return 0
+			}
+			entry = entry.Contents[name]
+		}
+	}
+	return entry.Count()
+}
+
 // Transition implements the Transition method for local endpoints.
 func (e *endpoint) Transition(ctx context.Context, transitions []*core.Change) ([]*core.Entry, []*core.Problem, bool, error) {
 	// If we're in a read-only mode, we shouldn't be performing transitions.
@@ -1317,9 +1336,20 @@ func (e *endpoint) Transition(ctx context.Context, transitions []*core.Change) (
 	if e.maximumEntryCount != 0 {
 		// Compute the resulting entry count. If we dip below zero in this
 		// counting process, then the controller is malfunctioning.
+		//
+		// Removals are only credited for content that the most recent scan
+		// actually saw at the transition path: the transitions may have been
+		// computed from an older snapshot, and crediting the removal of
+		// content that has since vanished (and is thus no longer included in
+		// the last scan entry count) would admit creations that push the root
+		// past the limit.
 		resultingEntryCount := e.lastScanEntryCount
 		for _, transition := range transitions {
-			if removed := transition.Old.Count(); removed > resultingEntryCount {
+			removed := transition.Old.Count()
+			if scanned := scannedEntryCount(e.snapshot, transition.Path); removed > scanned {
+				removed = scanned
+			}
+			if removed > resultingEntryCount {
 				return nil, nil, false, errors.New("transition requires removing more entries than exist")
 			} else {
 				resultingEntryCount -= removed
